@@ -89,6 +89,9 @@ type c19In struct {
 	TB                         *bitmap.TailBitmap
 	Longs                      [][]uint64 // bitmaps whose lengths sit around powers of two (index builders)
 	Sparse                     [][]uint64 // long bitmaps that are all zero except two islands (range scans)
+	SparseRI, SparseSI         [][]int32  // their rank (with trailing entry) and select indexes, built by reference code
+	SparseR128                 [][]int32
+	SparseOnes                 []int
 	Pos                        []int32
 	Subs                       [][]int32
 	Sizes                      []int32
@@ -551,6 +554,23 @@ func c19Build(k int, al alloc) *c19In {
 		sp[(k+l)%2] = 1<<63 | uint64(k+1)
 		sp[l-3] = 0x8000000000000001
 		in.Sparse = append(in.Sparse, al.u64s(sp))
+		var pre, sel []int32
+		cnt := int32(0)
+		for wi, x := range sp {
+			pre = append(pre, cnt)
+			for b := 0; b < 64; b++ {
+				if x>>uint(b)&1 == 1 {
+					if cnt%32 == 0 {
+						sel = append(sel, int32(64*wi+b))
+					}
+					cnt++
+				}
+			}
+		}
+		in.SparseRI = append(in.SparseRI, al.i32s(append(append([]int32{}, pre...), cnt)))
+		in.SparseSI = append(in.SparseSI, al.i32s(sel))
+		in.SparseR128 = append(in.SparseR128, al.i32s(ref128(pre, cnt, len(sp))))
+		in.SparseOnes = append(in.SparseOnes, int(cnt))
 	}
 	in.Pos = al.i32s([]int32{0, 1, 63, 64, 65, int32(100 + k), 191})
 	in.Subs = [][]int32{al.i32s([]int32{0, 63}), al.i32s([]int32{}), al.i32s([]int32{1, 64, int32(65 + k)})}
@@ -617,6 +637,28 @@ func c19Alphabet() []c19Call {
 			i := []int32{0, 1, 63, 64, 65, 130}[k%30/5]
 			end := []int32{n, n - 1, n - 64, n - 65, n / 2}[k%5]
 			return pr(bitmap.PrevOne(bm, i, end))
+		}, false},
+		// rank and select across LONG RUNS of empty words (the island near the end is hundreds of words past
+		// the sampled 1-bit): every 1-bit of every sparse bitmap, and ranks at both ends of every island
+		{"bitmap.Select32R64/sparse", func(in *c19In) int { return len(in.Sparse) * 8 }, func(in *c19In, k int) interface{} {
+			j := k / 8
+			i := int32(k % 8 * (in.SparseOnes[j] - 1) / 7)
+			a, b := bitmap.Select32R64(in.Sparse[j], in.SparseSI[j], in.SparseRI[j], i)
+			return pr(a, b)
+		}, false},
+		{"bitmap.Select32/sparse", func(in *c19In) int { return len(in.Sparse) * 8 }, func(in *c19In, k int) interface{} {
+			j := k / 8
+			i := int32(k % 8 * (in.SparseOnes[j] - 1) / 7)
+			a, b := bitmap.Select32(in.Sparse[j], in.SparseSI[j], i)
+			return pr(a, b)
+		}, false},
+		{"bitmap.Rank64+Rank128/sparse", func(in *c19In) int { return len(in.Sparse) * 6 }, func(in *c19In, k int) interface{} {
+			j := k / 6
+			n := int32(64 * len(in.Sparse[j]))
+			i := []int32{0, 63, 129, n - 193, n - 129, n - 1}[k%6]
+			a, b := bitmap.Rank64(in.Sparse[j], in.SparseRI[j], i)
+			c, d := bitmap.Rank128(in.Sparse[j], in.SparseR128[j], i)
+			return pr(a, b, c, d)
 		}, false},
 		{"bitmap.ToArray/sparse", func(in *c19In) int { return len(in.Sparse) }, func(in *c19In, k int) interface{} { return pr(bitmap.ToArray(in.Sparse[k])) }, false},
 		{"bitmap.Slice/sparse", func(in *c19In) int { return len(in.Sparse) * 3 }, func(in *c19In, k int) interface{} {
